@@ -144,7 +144,7 @@ def gen_driver(proj, r, f, fi, contract, strcap):
             length = _bits(ln)
             bs = []
             for i in range(length):
-                v = inp.get('%s_buf.c[%dl]' % (n, i))
+                v = inp.get('%s_buf[%dl]' % (n, i))
                 bs.append(_bits(v) if v else 0)
             L.append('  static const unsigned char %s_bytes[] = {%s};' % (p.name, ', '.join(str(b) for b in bs + [0])))
             L.append('  std::string %s_str((const char*)%s_bytes, %d);' % (p.name, p.name, length))
@@ -167,6 +167,20 @@ def gen_driver(proj, r, f, fi, contract, strcap):
             call_args.append(p.name)
         else:
             return None
+    # aliases so that harness-level statements (in_* names) can be replayed verbatim
+    for p in fi.params:
+        if p.kind == 'val':
+            L.append('  auto& in_%s = %s;' % (p.name, p.name))
+        elif p.kind == 'ref':
+            L.append('  auto& in_%s = %s_obj;' % (p.name, p.name))
+        elif p.kind in ('str_in', 'str_out'):
+            L.append('  vstr& in_%s = %s_v; char* in_%s_buf = %s_buf;' % (p.name, p.name, p.name, p.name))
+    L.append('#define __CPROVER_assume(c) do { if (!(c)) std::printf("ASSUMPTION-FALSE %s\\n", #c); } while (0)')
+    L.append('#define __CPROVER_assert(c, id) std::printf("CLAUSE %s %d\\n", id, (int)(c))')
+    if contract.harness_pre is not None:
+        L.append('#ifdef VERIF_EVAL_CLAUSES')
+        L.extend(contract.harness_pre[2])
+        L.append('#endif')
     # snapshots for __CPROVER_old
     ens = []
     for c in contract.clauses:
@@ -218,6 +232,10 @@ def gen_driver(proj, r, f, fi, contract, strcap):
     # native ghost hooks
     for c in r.get('replay_ghost', []):
         L.append('  ' + c)
+    if contract.harness_post is not None:
+        L.append('#ifdef VERIF_EVAL_CLAUSES')
+        L.extend(contract.harness_post[2])
+        L.append('#endif')
     L.append('#ifdef VERIF_EVAL_CLAUSES')
     for cid, e in ens2:
         L.append('  std::printf("CLAUSE %s %%d\\n", (int)(%s));' % (cid, ' '.join(e.split())))
